@@ -136,9 +136,6 @@ class C10(Check):
                   suppress_health_check=list(HealthCheck), report_multiple_bugs=False)
         @given(gram, st.data())
         def prop(g, data):
-            if runner.time_left() < 0:
-                res.truncated = True
-                return
             rich = any(r[1] == 'Tsame' for r in g.rules)
             if not rich:
                 # wrap core rules in classes so that there are spans to look at
@@ -151,6 +148,14 @@ class C10(Check):
             ws = [' ', '\n', '  ', ' \n', '\n\n ', '']
             ign = ('rx', '[ \\n]+')
             g = g.copy(ignores=[('Space' if data.draw(st.booleans()) else None, ign)])
+            base = gens.all_inputs('ab12' if rich else 'ab', 3 if rich else 4)
+            texts = []
+            for t in base[1:]:
+                texts.append(spread(t, ws, data, st))
+            if g.mode == 'bytes':
+                texts = [t.encode('latin-1') for t in texts]
+            if runner.over_budget(res):
+                return
             desc = peg.render(g)
             mod, err = sut.compile_grammar(desc)
             if mod is None:
@@ -159,12 +164,6 @@ class C10(Check):
             res.hist['grammars_rich' if rich else 'grammars_core'] += 1
             bt = any(x[0] in ('backtrack', 'expect', 'expectnot') for r in g.rules for e in peg.rule_exprs(r) for x in peg.walk(e))
             entries = [e for e in gens_rich.entry_points(g) if e[0] in 'KFSs' or e.startswith('R')][:8]
-            base = gens.all_inputs('ab12' if rich else 'ab', 3 if rich else 4)
-            texts = []
-            for t in base[1:]:
-                texts.append(spread(t, ws, data, st))
-            if g.mode == 'bytes':
-                texts = [t.encode('latin-1') for t in texts]
             for name in entries:
                 fn = getattr(mod, name).parse
                 for i, t in enumerate(texts):
@@ -207,7 +206,10 @@ class C10(Check):
                                       'entry': name, 'text': t, 'pos': pos})
                         if got[0] == 'HANG':
                             return
-        prop()
+        try:
+            prop()
+        except runner.StopTask:
+            pass
         return res
 
     def replay(self, case):
